@@ -85,11 +85,12 @@ type AEvent struct {
 // AScenario is one world-A run
 type AScenario struct {
 	Profile       string     `json:"profile"`
-	Keys          []string   `json:"keys"`                    // orchestration key fields
-	MetricKeys    []string   `json:"metric_keys,omitempty"`   // metricKeys of the configuration (default: host)
-	Out2          bool       `json:"second_output,omitempty"` // a second output/buffer pair with different serialization settings (reference count 2 per record)
-	Tag           string     `json:"tag"`                     // tag template
-	KeyTuples     [][]string `json:"key_tuples"`              // values of (app, level-severity, pid) per tuple index; level is a severity number as string
+	Keys          []string   `json:"keys"`                              // orchestration key fields
+	MetricKeys    []string   `json:"metric_keys,omitempty"`             // metricKeys of the configuration (default: host)
+	Out2          bool       `json:"second_output,omitempty"`           // a second output/buffer pair with different serialization settings (reference count 2 per record)
+	Poison        bool       `json:"poison_released_buffers,omitempty"` // released backing buffers are overwritten with 0xEE (in the other runs they keep their bytes until reused, which is what lets a stale reference read ANOTHER record)
+	Tag           string     `json:"tag"`                               // tag template
+	KeyTuples     [][]string `json:"key_tuples"`                        // values of (app, level-severity, pid) per tuple index; level is a severity number as string
 	Mode          string     `json:"mode"`
 	MaxDurMs      int        `json:"max_duration_ms"`
 	FlushMs       int        `json:"flush_ms"`
@@ -572,6 +573,7 @@ func (w *worldA) tweak(r *simrt.Rand, s *AScenario, end int) {
 		s.PoolMin = []int{32, 32, 90, 150, 400}[r.Intn(5)]
 		s.PoolMode = []int{1, 1, 0}[r.Intn(3)]
 		s.Out2 = r.Bool(50)
+		s.Poison = r.Bool(50)
 		for ci := range s.Clients {
 			for bi := range s.Clients[ci].Bursts {
 				bu := &s.Clients[ci].Bursts[bi]
@@ -807,10 +809,19 @@ func (w *worldA) Run(t *testing.T, profile string, sc any, cfg simrt.Config) *Ou
 		cfg.MaxSteps = 600_000 // an ordinary run takes 2-30 thousand steps; a run that reconnects forever is cut and counted, not judged
 	}
 	simsync.Mode = simsync.PoolMode(s.PoolMode)
-	simsync.OnPut = nil
+	// released backing buffers are poisoned: whatever still reads them after the release shows as a difference, not as luck
+	simsync.OnPut = func(x any) {
+		if b, ok := x.(*[]byte); ok && b != nil && s.Poison {
+			bs := (*b)[:cap(*b)]
+			for i := range bs {
+				bs[i] = 0xEE
+			}
+		}
+	}
 	out.Res = simrt.Run(t, cfg, r.drive)
 	out.Log = r.logbuf.String()
 	simsync.Mode = simsync.PoolLIFO
+	simsync.OnPut = nil
 	r.evaluate(out)
 	return out
 }
